@@ -2293,8 +2293,8 @@ class _Gen:
             % (st, base, step(ref), ref(hd)))
         arg = r.randint(0, 5)
         sit.uses = lambda ref, tmp: ["emit(%s(%d));" % (ref(st), arg)]
-        # `hd` is the function's value, directly or through a chain of one or two more aliases
-        chain = [self.fresh("hx") for _ in range(r.choice([0, 0, 1, 2]))]
+        # `hd` is the function's value, directly or through a chain of up to three more aliases
+        chain = [self.fresh("hx") for _ in range(r.choice([0, 0, 1, 2, 2, 3]))]
         self.p.add(sit)
         prev = st
         for al in chain + [hd]:
